@@ -140,11 +140,17 @@ def run():
     pairs = corp.pairs(n_enum=350 if chk.quick else 5000, n_random=120 if chk.quick else 3000, n_unrelated=30 if chk.quick else 600, salt="c13")
     for name, a, b, info in pairs:
         tasks.append(("pair", "p" + name, (a, b)))
-    triples = corp.triples(n_enum=260 if chk.quick else 6000, n_random=90 if chk.quick else 2500, salt="c13")
+    triples = corp.triples(n_enum=260 if chk.quick else 6000, n_random=90 if chk.quick else 2500, salt="c13",
+                           n_outedits=120 if chk.quick else 4000)
     strategies = [("inline", None, None, True), ("mergetool", None, None, True), ("use-local", None, None, True),
                   ("inline", "use-remote", "clear-all", False), ("use-base", None, "remove", True)]
     for k, (name, b, l, rr, info) in enumerate(triples):
-        tasks.append(("triple", "m" + name, (b, l, rr, strategies[k % len(strategies)])))
+        if info.get("source") in ("output-edits", "output-scenario"):
+            # the strategies differ most inside output lists: every one of them
+            for j, st in enumerate(strategies):
+                tasks.append(("triple", "m%s-s%d" % (name, j), (b, l, rr, st)))
+        else:
+            tasks.append(("triple", "m" + name, (b, l, rr, strategies[k % len(strategies)])))
     ctx = multiprocessing.get_context("fork")
     with ctx.Pool(common.NCPU) as pool:
         res = pool.map(worker, tasks, chunksize=8)
